@@ -5,6 +5,7 @@ import (
 	"fmt"
 	"math"
 	"reflect"
+	"sort"
 	"strings"
 	"sync"
 	"unsafe"
@@ -137,6 +138,18 @@ func genReadersCase(thorough bool, r *R, seed uint64, index int64) *Case {
 			c.Doc = string(o.Out)
 			c.Flattened = true
 		}
+	}
+	if !c.Flattened && len(disk) > 1 && r.P(12) {
+		// a models-only document: one of the auxiliary documents (definitions, shared objects, no operation at all)
+		var aux []string
+		for p := range disk {
+			if p != root {
+				aux = append(aux, p)
+			}
+		}
+		sort.Strings(aux)
+		c.Doc = disk[aux[r.Intn(len(aux))]]
+		c.Features = append(c.Features, "modelsOnlyDoc")
 	}
 	doc := new(spec.Swagger)
 	if err := json.Unmarshal([]byte(c.Doc), doc); err != nil {
